@@ -36,6 +36,17 @@ SCHEMAS = {
         type RootM { touch(at: DateTime): Boolean }
     ''',
     "minimal": "type Query { a: Int }",
+    "multi-line-schema-and-directive-descriptions": '''
+        """First line of the schema description
+        second line: with "quotes", a # hash and a \\ backslash
+
+          indented paragraph"""
+        schema { query: Query }
+        """directive description
+        over two lines"""
+        directive @note(text: String = "a\\nb") on FIELD_DEFINITION
+        type Query { a: Int }
+    ''',
 }
 
 
@@ -50,13 +61,15 @@ def check_round_trip(name="everything", extra_type_names=()):
     try:
         open(os.path.join(d, "schema.graphql"), "w").write(sdl)
         source = G.build_schema(sdl)
-        for target, var, tmv in (("out.py", "mySchema", "TYPES_map"), ("out.graphql", "schema", "type_map")):
+        # every accepted file type, in the spellings the settings accept (the type is case-insensitive)
+        for target, var, tmv in (("out.py", "mySchema", "TYPES_map"), ("out.graphql", "schema", "type_map"), ("UPPER.PY", "schema", "type_map"),
+                                 ("Mixed.Gql", "schema", "type_map")):
             cfg = dict(schema_path=os.path.join(d, "schema.graphql"), target_file_path=os.path.join(d, target),
                        schema_variable_name=var, type_map_variable_name=tmv, plugins=[])
             try:
                 with contextlib.redirect_stdout(io.StringIO()):
                     graphql_schema({"tool": {"ariadne-codegen": cfg}})
-                if target.endswith(".py"):
+                if target.lower().endswith(".py"):
                     ns = {}
                     exec(compile(open(os.path.join(d, target)).read(), target, "exec"), ns)
                     rebuilt = ns[var]
